@@ -118,10 +118,9 @@ def rt_ok(r, strict):
 
 
 def rt_guards(r, doc):
-    """which guards of C02_complete_partial the rendering violates (ordered)"""
+    """which guards of C02_complete_partial the rendering violates (ordered).  (G1, one `]]>` per line, was a guard
+    while the CDATA group was greedy; `cd_safe` remains only to label such documents in the statistics.)"""
     out = []
-    if not cd_safe(doc):
-        out.append("G1")
 
     def walk(n):
         if n[0] == "c" and n[4] and n[3] != "":
